@@ -72,6 +72,21 @@ def parseV (c : Codec Float) (st : SCState) (s : String) : Option (Value Float F
     | _ => none
   | _ => none
 
+/-- a clock speed value: `<spt|tps|tpm>=<f64>` | `m<l|t><idx>_<in0>_<in1>_<speed>_<speed>` -/
+def parseVCs (st : SCState) (s : String) : Option (Value Float (ClockSpeed Float)) :=
+  match s.toList with
+  | 'm' :: k :: rest =>
+    match (String.ofList rest).splitOn "_" with
+    | [idx, i0, i1, o0, o1] => do
+        let idx ← nat? idx; let i0 ← f64? i0; let i1 ← f64? i1
+        let o0 ← parseCsEq o0; let o1 ← parseCsEq o1
+        let tbl := if k == 'l' then st.lfos else st.tweeners
+        match pick tbl idx with
+        | some id => pure (.fromModulator id ⟨i0, i1, o0, o1, .linear⟩)
+        | none => pure (.fixed o0)
+    | _ => none
+  | _ => (parseCsEq s).map .fixed
+
 /-- `f<ns>`: a fixed `Duration` -/
 def parseVDur (s : String) : Option (Value Float Nat) :=
   match s.toList with
@@ -220,11 +235,18 @@ def showTrack (sy : Sy) (id : Nat) : String :=
   | some t => s!"{trackStateName t.hState}/{t.hNumSounds}/{t.hNumSubTracks}"
   | none => "gone"
 
+/-- what a `ClockHandle` reads: `ticking()` and `time()` -/
+def showClock (sy : Sy) (id : Nat) : String :=
+  match (sy.r.env.clocks ++ sy.r.env.newClocks).lookup id with
+  | some c => s!"{if c.hTicking then 1 else 0}/{c.hTime.ticks}/{show64 c.hTime.fraction}"
+  | none => "gone"
+
 def showScene (st : SCState) (sy : Sy) : String :=
   let m := sy.r.mixer
   let snd := String.intercalate " " (st.sounds.map (showSound st))
   let trk := String.intercalate " " (st.tracks.map (showTrack sy))
-  s!"subs={m.hNumSubTracks} sends={m.hNumSendTracks} main={m.main.sounds.length + m.main.pendingSounds.length} ; {snd} ; {trk}"
+  let clk := String.intercalate " " (st.clocks.map (showClock sy))
+  s!"subs={m.hNumSubTracks} sends={m.hNumSendTracks} main={m.main.sounds.length + m.main.pendingSounds.length} ; {snd} ; {trk} ; {clk}"
 
 /-! ### the step function -/
 
@@ -260,9 +282,9 @@ def scStep (st : SCState) (tok : List String) : Option (SCState × String) :=
       pure ({ st with sys := some sy', nextFx := nfx, fxs := st.fxs ++ fx.map (·.id), fxKinds := st.fxKinds ++ kindsOf fx,
                       nextTrack := id + 1, tracks := st.tracks ++ [id] }, s!"ok {cnt}")
   | some sy, ["clock", cs] => do
-      let cs ← parseCsEq cs
+      let cs ← parseVCs st cs
       let id := st.nextClock
-      pure ({ st with sys := some (sy.addClock id (.fixed cs)), nextClock := id + 1, clocks := st.clocks ++ [id] }, "ok")
+      pure ({ st with sys := some (sy.addClock id cs), nextClock := id + 1, clocks := st.clocks ++ [id] }, "ok")
   | some sy, ["clock.cmd", i, c] => do
       let i ← nat? i
       match pick st.clocks i with
@@ -272,10 +294,10 @@ def scStep (st : SCState) (tok : List String) : Option (SCState × String) :=
           | "start" => some .start | "pause" => some .pause | "stop" => some .stop | _ => none
         pure (setSys st (sy.clockCommand id cmd), "ok")
   | some sy, ["clock.speed", i, cs, tw] => do
-      let i ← nat? i; let cs ← parseCsEq cs; let tw ← parseTweenR st tw
+      let i ← nat? i; let cs ← parseVCs st cs; let tw ← parseTweenR st tw
       match pick st.clocks i with
       | none => pure (st, "skip")
-      | some id => pure (setSys st (sy.clockCommand id (.setSpeed (.fixed cs) tw)), "ok")
+      | some id => pure (setSys st (sy.clockCommand id (.setSpeed cs tw)), "ok")
   | some sy, ["lfo", w, f, a, o, ph] => do
       let w ← parseWaveform w
       let f ← parseV codec64 st f; let a ← parseV codec64 st a; let o ← parseV codec64 st o
